@@ -228,3 +228,56 @@ pub fn decode_pair(data: &[u8]) -> PairCase {
         mode,
     }
 }
+
+/// Decode a C14 case (state, split plan, worker programs) from bytes.
+pub fn decode_c14(data: &[u8], ptype: &str, max_ops: usize) -> crate::c14::C14Case {
+    use crate::c14::{PlanStep, WOp};
+    let mut c = Cur::new(data);
+    let nplan = c.below(10) as usize;
+    let plan = (0..nplan)
+        .map(|_| {
+            let i = (c.u8() as u16) << 8;
+            match c.below(8) {
+                0..=4 => PlanStep::Split(i),
+                5 => PlanStep::Left(i),
+                6 => PlanStep::Find(i, pref(&mut c)),
+                _ => PlanStep::FindLpm(i, pref(&mut c)),
+            }
+        })
+        .collect();
+    let nw = 1 + c.below(4) as usize;
+    let workers = (0..nw)
+        .map(|_| {
+            let n = c.below(4) as usize;
+            (0..n)
+                .map(|_| match c.below(10) {
+                    0 | 1 | 2 => WOp::IterMutWrite(c.u64()),
+                    3 => WOp::ValuesMutWrite(c.u64()),
+                    4 => WOp::Set,
+                    5 => WOp::Remove,
+                    6 => WOp::ValueMut,
+                    7 => WOp::Find(pref(&mut c)),
+                    8 => WOp::UnionPrivate((0..c.below(4)).map(|_| pref(&mut c)).collect()),
+                    _ => WOp::DifferencePrivate((0..c.below(4)).map(|_| pref(&mut c)).collect()),
+                })
+                .collect()
+        })
+        .collect();
+    let pair_kind = c.below(6);
+    let mask = c.u64();
+    let rest = &data[c.p.min(data.len())..];
+    let mut case = decode_case(rest, false, max_ops);
+    case.ptype = ptype.to_string();
+    // insert-heavy: turn every second non-insert into an insert so that the map is populated
+    for (i, o) in case.ops.iter_mut().enumerate() {
+        if i % 2 == 0 {
+            if let Some(p) = match o {
+                Op::Remove { p, .. } | Op::RemoveKeepTree { p, .. } | Op::RemoveChildren { p, .. } | Op::GetMut { p, .. } | Op::GetLpmMut { p, .. } => Some(*p),
+                _ => None,
+            } {
+                *o = Op::Insert { m: M::A, p };
+            }
+        }
+    }
+    crate::c14::C14Case { case, plan, workers, pair_kind, mask }
+}
